@@ -724,6 +724,8 @@ class Prov:
                     v = int(v)
                 except ValueError:
                     pass
+            if v is None and k.get('variant'):
+                v = k['variant']
             return ('const', k['ty'], v if not isinstance(v, list) else tuple(v))
         p = op_place(op)
         if p is None:
